@@ -4,7 +4,10 @@ patch=$1; shift; id=$1; shift
 cd /repo || exit 3
 if [ -n "$(git status --porcelain)" ]; then echo "repo not clean"; exit 3; fi
 git apply "$patch" 2>/tmp/seedtest.err || { echo "patch does not apply"; cat /tmp/seedtest.err; git reset -q --hard HEAD; exit 3; }
+# evidence/ describes the unchanged tree: keep the seeded run from overwriting it
+ev=/verif/evidence/$id.json; [ -f "$ev" ] && cp "$ev" "/tmp/seedtest.$id.evidence"
 cd /verif && ./check "$id" "$@" > /tmp/seedtest.$id.out 2>&1; rc=$?
+[ -f "/tmp/seedtest.$id.evidence" ] && mv "/tmp/seedtest.$id.evidence" "$ev"
 grep -E "^(VIOLATION|KNOWN-FINDING|OK|INCONCLUSIVE)" /tmp/seedtest.$id.out | head -5
 # drop replays created by the seeded run
 git -C /verif status --porcelain replays | awk '$1=="??"{print $2}' | while read f; do rm -rf "/verif/$f"; done
